@@ -60,8 +60,37 @@ def gen_timeout_cancel(rng):
             "subs": subs, "clients": clients, "settle": 15.0, "focus": "timeout-cancel"}
 
 
+def gen_shutdown_race(rng):
+    """Focus family: thread-owning layers, a little work, then shutdown(wait=True) from the client
+    while the layers' own threads are still finishing their iteration (lost wake-up / join)."""
+    layers = []
+    for _ in range(rng.choice([1, 1, 2])):
+        t = rng.choice(["retry", "retry", "poll", "throttle", "timeout"])
+        L = {"t": t}
+        if t == "retry":
+            L.update({"max_attempts": rng.choice([1, 2]), "sleep": rng.choice([0, 0.05]), "exponent": 1, "max_sleep": 1})
+        elif t == "poll":
+            L.update({"interval": 0.5, "after": 1, "out": "ok", "cancel_fn": None})
+        elif t == "throttle":
+            L.update({"count": rng.choice([1, 2]), "block": False})
+        else:
+            L["timeout"] = 5000.0
+        layers.append(L)
+    nsub = rng.choice([1, 1, 2])
+    subs = {str(s): {"dur": rng.choice([0, 0, 0.01]), "nest": False, "fail": rng.choice([0, 0, 1])} for s in range(nsub)}
+    ops = [["submit", s] for s in range(nsub)]
+    if rng.random() < 0.7:
+        ops.append(["result", rng.randrange(nsub)])
+    ops.append(["shutdown", True])
+    return {"sim": runner.draw_sim_cfg(rng, est=300), "base": {"kind": rng.choice(["sync", "pool"]), "n": 1}, "layers": layers,
+            "subs": subs, "clients": [ops], "settle": 15.0, "focus": "shutdown-race"}
+
+
 def gen(rng, tier):
-    if rng.random() < 0.25:
+    r0 = rng.random()
+    if r0 < 0.1:
+        return gen_shutdown_race(rng)
+    if r0 < 0.35:
         return gen_timeout_cancel(rng)
     depth = rng.choice([0, 1, 1, 2, 2, 3])
     base = {"kind": rng.choice(["sync", "pool", "pool"]), "n": rng.choice([1, 2])}
@@ -198,7 +227,20 @@ def run(spec, env):
 
 
 def check(spec, env):
-    return deadlock_violations(env.sim)
+    out = deadlock_violations(env.sim)
+    sim = env.sim
+    if not out and sim.outcome and sim.outcome[0] in ("horizon", "stuck"):
+        # a client sitting in shutdown()'s join on a library thread that will never exit (the join
+        # carries a huge timeout, so it is a timed wait that only the horizon ends)
+        from harness.oracles import lib_chain
+        for (name, typ, site, timed, owner, owner_blocked) in sim.final_blocked:
+            if name.startswith("client") and typ == "SimThread":
+                chain = lib_chain(sim.final_stacks.get(name.rsplit("#", 1)[0], sim.final_stacks.get(name, [])))
+                out.append({"oracle": "client-blocked-forever", "sig": "client-blocked|join@%s" % chain,
+                            "msg": "client %s never returned from joining a library thread (outcome %s); blocked: %r; stacks: %r"
+                                   % (name, sim.outcome[0], sim.final_blocked, sim.final_stacks)})
+                break
+    return out
 
 
 def probes(spec, env):
